@@ -320,11 +320,14 @@ def strat_e2e(ctx: Ctx):
     tsig = st.lists(st.tuples(st.integers(0, 60), st.integers(0, 200),
                               st.one_of(st.none(), st.integers(0, 16))), min_size=0, max_size=8)
     anchors = st.lists(st.tuples(st.integers(0, 3000), st.integers(0, 10 ** 12)), max_size=6)
-    return st.builds(lambda res, tempo, tsig, anchors, ts0: {
+    song = st.lists(st.sampled_from([["Offset", "5"], ["Offset", "120"], ["Offset", "0"], ["Name", '"x"'],
+                                     ["PreviewStart", "30"], ["Difficulty", "4"], ["Player2", "rhythm"]]),
+                    max_size=3, unique_by=lambda x: x[0])
+    return st.builds(lambda res, tempo, tsig, anchors, ts0, song: {
         "res": res, "tempo": [list(x) for x in tempo], "tsig": [list(x) for x in tsig],
-        "anchors": [list(x) for x in anchors], "ts0": list(ts0)},
+        "anchors": [list(x) for x in anchors], "ts0": list(ts0), "song": song},
         st.sampled_from([192, 480, 96, 100, 1, 7, 960]), tempo, tsig, anchors,
-        st.tuples(st.integers(0, 64), st.one_of(st.none(), st.integers(0, 16))))
+        st.tuples(st.integers(0, 64), st.one_of(st.none(), st.integers(0, 16))), song)
 
 
 def check_e2e(ctx: Ctx, case) -> None:
@@ -346,6 +349,10 @@ def check_e2e(ctx: Ctx, case) -> None:
     for tk, _, payload in merged:
         sync.append([tk] + payload)
     spec = {"res": case["res"], "sync": sync, "events": [], "tracks": {}}
+    if case.get("song"):
+        # unrelated [Song] fields (Offset!) and an instrument section ride along
+        spec["song"] = [list(x) for x in case["song"]] + [["Resolution", str(case["res"])]]
+        spec["tracks"] = {"ExpertSingle": [[0, "N", 0, 0]]}
     text = S.render(spec)
     excluded = [n for _, n in bpms if _split_decode_differs(n)]
     try:
